@@ -137,3 +137,25 @@ Theorem C20_edgelist_roundtrip : forall names es,
   parse_edges [] (lines (EdgeProofs.print_edgelist names es)) = Some (names, es).
 Proof. exact EdgeProofs.parse_print_edgelist. Qed.
 Print Assumptions C20_edgelist_roundtrip.
+
+(* ---------- cmr-matrix judged byte file to byte file (CliModel.v) ---------- *)
+Require Cmr.CliModel Cmr.CliProofs.
+Theorem C20_cmr_matrix_judge_sound : forall rec infmt outfmt tr task hasS rs cs inb rc hasout outb rest,
+  CliProofs.climat_input rec = Some ((infmt, outfmt, tr, task, hasS, rs, cs, inb, rc, hasout, outb), rest) ->
+  CliModel.judge_climat rec = 0 ->
+  (forall m n M m2 n2 M2,
+     parse infmt 1 inb = TOk m n M ->
+     CliModel.climat_expected hasS rs cs tr task (m, n, M) = Some (m2, n2, M2) ->
+     rc = 0 /\ hasout = true /\ parse outfmt 1 outb = TOk m2 n2 M2) /\
+  (parse infmt 1 inb = TErr -> hasout = false \/ outb = []).
+Proof. exact CliProofs.judge_climat_sound. Qed.
+Print Assumptions C20_cmr_matrix_judge_sound.
+
+Theorem C20_tolerance_sign_spec : forall mant ex : Z,
+  (CliModel.tol_sign (mant, ex) = 0 <->
+     (if 0 <=? ex + 9 then Z.abs mant * 10 ^ (ex + 9) <= 1 else Z.abs mant <= 10 ^ (- (ex + 9)))) /\
+  (CliModel.tol_sign (mant, ex) = 1 -> 0 < mant) /\
+  (CliModel.tol_sign (mant, ex) = -1 -> mant < 0) /\
+  (CliModel.tol_sign (mant, ex) = 0 \/ CliModel.tol_sign (mant, ex) = 1 \/ CliModel.tol_sign (mant, ex) = -1).
+Proof. exact CliProofs.tol_sign_spec. Qed.
+Print Assumptions C20_tolerance_sign_spec.
